@@ -65,6 +65,19 @@ def run(ctx):
         except Exception as e:  # noqa
             ctx.count("construct_rejected")
             continue
+        reuse = None
+        if i % 9 == 4 and len(nodes) >= 3:
+            # the same node *object* at two positions (a re-applied / weight-shared layer): position-wise it is still
+            # one entry per position, named by the per-class counter
+            body = [j for j, k in enumerate(kinds) if k not in ("Input", "Output")]
+            if len(body) >= 2:
+                a, b = sorted(rng.sample(body, 2))
+                nodes[b] = nodes[a]; recs[b] = recs[a]; kinds[b] = kinds[a]
+                reuse = [a, b]
+                ctx.count("reused_object")
+        case["nodes"] = recs
+        if reuse:
+            case["same_object_at"] = reuse
         try:
             g = nir.NIRGraph.from_list(*nodes) if conv == "args" else \
                 nir.NIRGraph.from_list(nodes if conv == "list" else tuple(nodes))
